@@ -200,12 +200,16 @@ def model_candidates(ctx, per_pattern):
     pats = translate.all_patterns()
     live = []
     for name, p, f in pats:
-        pumps = pumpgen.pumps_for(p, f)
-        if len(pumps) > per_pattern:
-            pumps = r.sample(pumps, per_pattern)
-        live += [(name, pump) for pump in pumps]
+        live += [(name, pump) for pump in pumpgen.pumps_for(p, f)]
     out, n_req, total = [], 0, 0
     for n1, n2, limit, minsteps in ((5, 10, 24.0, 1500), (10, 20, 24.0, 3000), (24, 48, 5.0, 3000)):
+        if n2 == 48:
+            # the two short stages run on every pump of every pattern (exponential growth shows there); the long one on a sample
+            by = {}
+            for name, pump in live:
+                by.setdefault(name, []).append(pump)
+            live = [(name, pump) for name, pumps in by.items()
+                    for pump in (pumps if len(pumps) <= per_pattern else r.sample(pumps, per_pattern))]
         reqs = []
         for name, (pre, u, suf) in live:
             reqs.append(("rx_cost", [name, pre + u * n1 + suf, 0]))
